@@ -255,6 +255,19 @@ def selectors_config(h, mesh, spec, free=None):
         Dn = set(np.asarray(basis.get_dofs(nodes=Nsel.astype(np.int32)).flatten()).tolist())
         wantn = set(basis.dofs.nodal_dofs[:, Nsel].ravel().tolist()) if len(Nsel) else set()
         h.concrete('vertex query == nodal DOFs of the selected vertices', Dn == wantn)
+        # equivalent ways of naming the vertex set: predicate, list of arrays, set of single-vertex arrays
+        asset = lambda D_: set(np.asarray(D_.flatten()).tolist())
+        h.concrete('vertex query by predicate == by index', asset(basis.get_dofs(nodes=lambda x: x[0] < c)) == Dn)
+        if len(Nsel) > 1:
+            parts = [Nsel[:1].astype(np.int32), Nsel[1:].astype(np.int32)]
+            h.concrete('vertex query by a list of index arrays == by index', asset(basis.get_dofs(nodes=parts)) == Dn)
+            h.concrete('vertex query by [predicate, index array] == union',
+                       asset(basis.get_dofs(nodes=[lambda x: x[0] < c, np.array([0], dtype=np.int32)])) ==
+                       asset(basis.get_dofs(nodes=np.union1d(Nsel, [0]).astype(np.int32))))
+        if not h.sym_mode or all(tosym(P[i, 0]).c is not None for i in range(P.shape[0])):
+            # a vertex named by its coordinates (tuple): numeric vertex only (the library compares with a 1e-12 tolerance)
+            v0 = tuple(float(tosym(P[i, 0]).c) if h.sym_mode else float(P[i, 0]) for i in range(P.shape[0]))
+            h.concrete('vertex named by its coordinates == vertex 0', asset(basis.get_dofs(nodes=v0)) == asset(basis.get_dofs(nodes=np.array([0], dtype=np.int32))))
 
 
 def cells_config(h, mesh, spec, cellsets, free=None):
